@@ -38,6 +38,7 @@ def run(ck, fb):
     r09i(ck, fb)
     r09j(ck, fb)
     r09k(ck, fb)
+    r09l(ck, fb)
 
 
 PAIR_EXCEPTIONS = {
@@ -553,3 +554,34 @@ def r09k(ck, fb, R='R09k'):
         ck.require(removed and empty, R, 'remove_config:group-dropped-only-when-emptied-by-this-key', s0.where(),
                    'the group entry is dropped without the dataId having been removed from it (%s): a remove of an unknown dataId takes the last stored '
                    'config of the group out of every listing' % [cfg.fmt_atom(a) for a in atoms], 'after a successful removal that left the set empty')
+
+
+def r09l(ck, fb, R='R09l'):
+    ck.rule(R, 'the history bound holds for every way a history list gets into the store: update_value trims before it pushes (R09d); a whole '
+               'ConfigValue that was built elsewhere (full-value import entry, snapshot record: ConfigActor::inner_set_config, or the decoder '
+               'From<ConfigValueDO>) is cut to the bound before it is stored - there is a shrinking call on `histories` whose length test, if it '
+               'has one, fires at 100 items or fewer above the bound. An import file with 150 history items otherwise leaves a key whose history '
+               'page reports 150 entries for ever (update_value removes one item per push, it never shrinks to the bound)')
+    b = ck.body(CA + 'inner_set_config', R)
+    if not b:
+        return
+    scope = list(util.region(fb, b)) + fb.impls(r'convert::From$', r'config::core::ConfigValue$', r'ConfigValueDO', 'from')
+    ck.floor(R, 'bodies on the full-value path (inner_set_config region + decoder)', len(scope), 2)
+    shr = []
+    for x in scope:
+        ck.analysed(x)
+        for s0 in x.calls(r'Vec::<T, A>::(drain|truncate|remove|split_off|retain|pop|swap_remove)$|VecDeque::<T, A>::(pop_front|drain|truncate)$'):
+            if 'histories' in util.recv_fields(x, s0):
+                shr.append((x, s0))
+    ck.require(bool(shr), R, 'full-value:history-bounded', b.where(),
+               'a full value (import entry / snapshot record) is stored with whatever history it carries: nothing on the path shortens `histories`, so the '
+               '"last 100" bound does not hold for an imported key', 'histories is cut before the value is stored')
+    for (x, s0) in shr:
+        worst = None
+        for a in cfg.guard_atoms(x, s0.bb):
+            if a[0] == 'cmp' and a[1] in ('Ge', 'Gt') and a[4] is True and a[3]['k'] == 'const' and 'v' in a[3]['c']:
+                l = cfg.strip_calls(x, a[2])
+                if l['k'] == 'call' and (cfg.callee_name(l['term']) or '').endswith('::len'):
+                    worst = int(a[3]['c']['v']) + (1 if a[1] == 'Gt' else 0)
+        ck.require(worst is None or worst <= 101, R, 'full-value:bound<=100', s0.where(),
+                   'the imported history is only cut when it holds %s items or more: the bound of the property is 100' % worst)
